@@ -20,6 +20,7 @@ package main
 
 import (
 	"fmt"
+	"go/token"
 
 	"golang.org/x/tools/go/ssa"
 )
@@ -71,6 +72,18 @@ func (w *World) ruleMakeKindChecked(r *Report, rule string, want func(fn *ssa.Fu
 						have = fmt.Sprintf("its kind is only known to be in %v", set)
 					}
 					fact = fmt.Sprintf("the type argument %s comes from outside (type map / destination) and %s at the call: any other kind — an array type registered like a slice, a struct named in a list header — makes %s panic", f.term(t).Key(), have, c.Call.StaticCallee().Name())
+				}
+				if !ok2 && w.kindTestedOnCell(fn, c, t, k) {
+					ok2, fact = true, "the variable holding the type is compared with the required kind on the way to the call"
+				}
+				if !ok2 {
+					// a function only reached through function values (a table of readers indexed
+					// by kind): which kinds reach it is decided by the table, not judged here
+					if w.onlyThroughFunctionValues(fn, 0) && shapeOf(t, paramShapes(fn), 0) != "" {
+						o := r.add(rule, key, w.instrPos(c), true, "the type is an expression over the parameters of a function that is only called through function values: the kinds that reach it are the callers' choice")
+						o.Trivial = true
+						continue
+					}
 				}
 				if !ok2 {
 					// the kind may have been established by the callers (the field dispatcher's
@@ -129,8 +142,40 @@ func shapeOf(v ssa.Value, subst map[ssa.Value]string, depth int) string {
 		return shapeOf(x.X, subst, depth+1)
 	case *ssa.MakeInterface:
 		return shapeOf(x.X, subst, depth+1)
+	case *ssa.UnOp:
+		// a parameter spilled to a cell (its address is taken, or a closure captures it)
+		// and never assigned again
+		if al, ok := x.X.(*ssa.Alloc); ok {
+			var stored ssa.Value
+			n := 0
+			for _, ref := range *al.Referrers() {
+				if st, ok := ref.(*ssa.Store); ok && st.Addr == ssa.Value(al) {
+					stored = st.Val
+					n++
+				}
+			}
+			if n == 1 {
+				// a variable assigned once (a parameter spilled, or a local a closure captures)
+				return shapeOf(stored, subst, depth+1)
+			}
+		}
 	}
 	return ""
+}
+
+// staticCallSites: the call instructions of the package whose static callee is fn.
+func (w *World) staticCallSites(fn *ssa.Function) []*ssa.Call {
+	var out []*ssa.Call
+	for _, g := range w.allPkgFuncs() {
+		for _, b := range g.Blocks {
+			for _, in := range b.Instrs {
+				if c, ok := in.(*ssa.Call); ok && c.Call.StaticCallee() == fn {
+					out = append(out, c)
+				}
+			}
+		}
+	}
+	return out
 }
 
 // kindInCallers: in every static caller of fn, at the call, the value with the same
@@ -188,4 +233,79 @@ func (w *World) kindInCallers(fn *ssa.Function, t ssa.Value, k int64) (bool, str
 		return false, ""
 	}
 	return true, fmt.Sprintf("the kind is established by every caller before the call (%v): %s has the required kind there", names, want)
+}
+
+func paramShapes(fn *ssa.Function) map[ssa.Value]string {
+	ps := map[ssa.Value]string{}
+	for i, p := range fn.Params {
+		ps[p] = fmt.Sprintf("$%d", i)
+	}
+	return ps
+}
+
+// kindTestedOnCell: t is a load of a local variable cell, and a load of the same cell
+// is compared (Kind() == k) by an if whose true side dominates the call.
+func (w *World) kindTestedOnCell(fn *ssa.Function, call *ssa.Call, t ssa.Value, k int64) bool {
+	ld, ok := t.(*ssa.UnOp)
+	if !ok {
+		return false
+	}
+	cell, ok := ld.X.(*ssa.Alloc)
+	if !ok {
+		return false
+	}
+	for _, b := range fn.Blocks {
+		iff, ok := b.Instrs[len(b.Instrs)-1].(*ssa.If)
+		if !ok {
+			continue
+		}
+		bo, ok := iff.Cond.(*ssa.BinOp)
+		if !ok || bo.Op.String() != "==" {
+			continue
+		}
+		kc, kv := bo.X, bo.Y
+		if _, isC := kc.(*ssa.Const); isC {
+			kc, kv = bo.Y, bo.X
+		}
+		cst, isC := kv.(*ssa.Const)
+		kcall, isCall := kc.(*ssa.Call)
+		if !isC || !isCall || cst.Value == nil || cst.Int64() != k || calleeName(&kcall.Call) != "Kind" {
+			continue
+		}
+		var recv ssa.Value
+		if kcall.Call.IsInvoke() {
+			recv = kcall.Call.Value
+		} else if len(kcall.Call.Args) > 0 {
+			recv = kcall.Call.Args[0]
+		}
+		l2, ok := recv.(*ssa.UnOp)
+		if !ok || l2.X != ssa.Value(cell) {
+			continue
+		}
+		ts := b.Succs[0]
+		if (ts == call.Block() || ts.Dominates(call.Block())) && len(ts.Preds) == 1 {
+			return true
+		}
+	}
+	return false
+}
+
+// onlyThroughFunctionValues: fn is not exported and has no static call site — or every
+// static call site sits in a function literal that hands its own parameters on and is
+// itself only used as a value (`table[kind] = func(d, v) error { return d.readMap(v) }`).
+func (w *World) onlyThroughFunctionValues(fn *ssa.Function, depth int) bool {
+	if depth > 2 || (fn.Parent() == nil && token.IsExported(fn.Name()) && fn.Signature.Recv() == nil) {
+		return false
+	}
+	sites := w.staticCallSites(fn)
+	if len(sites) == 0 {
+		return fn.Parent() != nil // a literal nobody calls statically is a value
+	}
+	for _, c := range sites {
+		cf := c.Parent()
+		if cf.Parent() == nil || !w.onlyThroughFunctionValues(cf, depth+1) {
+			return false
+		}
+	}
+	return true
 }
